@@ -423,5 +423,86 @@ def check_io(pid, tier, seed, scratch, replay):
     return rep.finish()
 
 
+# ------------------------------------------------------------------------------------------------
+# C01-C05: codecs (shared driver)
+# ------------------------------------------------------------------------------------------------
+
+def codec_check(pid, tier, seed, scratch, spec):
+    """spec: dict(name, mc=[(module,cfg)], gens=[(env, parts_q, parts_t)], gen_module, gen_cfg, drive_cmd, trace_module,
+    trace_cfg, nrand=(q,t), rule, assumptions, nontrivial, key)"""
+    import concurrent.futures as cf
+    thorough = tier == "thorough"
+    rep = Report(pid, tier, seed)
+    rep.rule = spec["rule"]
+    rep.assumptions = spec["assumptions"]
+    drive = vlib.build_harness(scratch)
+    jobs = []
+    for gi, (env, pq, pt, only) in enumerate(spec["gens"]):
+        if only == "thorough" and not thorough:
+            continue
+        parts = pt if thorough else pq
+        for p in range(parts):
+            jobs.append((gi, env, p, parts))
+
+    def run_gen(job):
+        gi, env, p, parts = job
+        out = scratch.path("cases.%s.%d.%d.ndjson" % (spec["name"], gi, p))
+        e = dict(env)
+        e.update(GEN_OUT=out, GEN_PART=p, GEN_PARTS=parts)
+        r = tlc(scratch, spec["gen_module"], spec["gen_cfg"], env=e, heap="3g", timeout=2400)
+        require_ok(r, "%s generation %s part %d" % (spec["name"], env, p))
+        tr = scratch.path("trace.%s.%d.%d.ndjson" % (spec["name"], gi, p))
+        vlib.run_drive(drive, [spec["drive_cmd"], "-cases", out, "-out", tr, "-n0", str((gi * 64 + p) * 1000000)] + spec.get("drive_args", []))
+        return tr
+
+    nr = spec["nrand"][1 if thorough else 0]
+    rparts = 8 if thorough else 2
+
+    def run_rand(i):
+        tr = scratch.path("trace.%s.rand.%d.ndjson" % (spec["name"], i))
+        vlib.run_drive(drive, [spec["drive_cmd"], "-out", tr, "-seed", str(seed * 1000 + i), "-num", str(nr // rparts),
+                               "-n0", str(900000000 + i * 1000000)] + spec.get("drive_args", []))
+        return tr
+
+    with cf.ThreadPoolExecutor(max_workers=vlib.NCPU) as ex:
+        mcf = []
+        for (mod, cfg, cfg_t) in spec["mc"]:
+            c = cfg_t if thorough and cfg_t else cfg
+            mcf.append(ex.submit(lambda mod=mod, c=c: (c, require_ok(tlc(scratch, mod, c, workers=3, timeout=2400), mod + "/" + c))))
+        gf = [ex.submit(run_gen, j) for j in jobs]
+        rf = [ex.submit(run_rand, i) for i in range(rparts)] if nr else []
+        traces = [f.result() for f in gf + rf]
+        vals = validate(ex, scratch, traces, spec["trace_module"], spec["trace_cfg"], per_jvm=spec.get("per_jvm", 2500))
+        for f in mcf:
+            c, r = f.result()
+            rep.add_mc(c, r)
+    collect(rep, vals, pid, nontrivial=spec.get("nontrivial"), key=spec.get("key"), is_first=lambda ev: True)
+    rep.extra["enumerated_by_tlc"] = sum(vlib.count_lines(t) for t in traces if ".rand." not in t)
+    return rep.finish()
+
+
+@register("C01")
+def check_srt(pid, tier, seed, scratch, replay):
+    return codec_check(pid, tier, seed, scratch, dict(
+        name="srt", gen_module="GenSrt", gen_cfg="GenSrt.cfg", drive_cmd="srt", trace_module="TraceSrt", trace_cfg="TraceSrt.cfg",
+        mc=[("SrtMC", "MC_Srt_A.cfg", "MC_Srt_A_T.cfg"), ("SrtMC", "MC_Srt_B.cfg", None)],
+        gens=[(dict(GEN_FAM="A", GEN_N=1), 6, 6, None), (dict(GEN_FAM="B", GEN_N=1), 2, 4, None), (dict(GEN_FAM="A", GEN_N=2), 0, 14, "thorough")],
+        nrand=(300, 6000),
+        rule=("TLC enumerates ground truths (<=1 cue quick / <=2 thorough; 1-2 lines; 1-2 runs; styles plain/bold/italic+underline+colour; "
+              "times with carries up to 99:59:59.999) x every rendering of family A (index number/junk/absent x tag discipline closed / "
+              "reversed nesting / carried across lines and never closed x 0-3 blank lines at EOF x LF/CRLF/CR x BOM) and family B "
+              "(separator x 1-3 fraction digits x spacing x trailing coordinates); each document is concretised with 5 text pools "
+              "(&, <, NBSP, digits-only, non-BMP, quotes) and read by ReadFromSRT; each truth is written by WriteToSRT, lexed by the "
+              "harness's own lexer, decoded by the TLA+ reference decoder and re-read by the library. Random driver: <=24 cues. "
+              "Non-trivial = distinct (truth, rendering) with at least one styled run or a non-canonical rendering choice."),
+        assumptions=["text atoms carry no leading/trailing white space; two adjacent runs without markup are one run (not a distinct truth)",
+                     "a cue rendered without index is preceded by a blank line; no text line is itself a timing line",
+                     "the reference decoder RefRead is model-checked against every rendering in the same run (SrtMC)"],
+        nontrivial=lambda ev: ev["dir"] == "write" or any(t["k"] in ("junk",) or (t["k"] == "timing" and (t["sep"] != "," or t["fd"] != 3 or t["sp"] or t["xy"])) or
+                                                         (t["k"] == "text" and len(t["its"]) > 1) for t in ev["d"]["toks"]) or ev["d"]["eol"] != "lf",
+        key=lambda ev: [ev["dir"], ev["g"], ev["d"], ev["n"] % 5],
+    ))
+
+
 def selftest(pid, tier, seed, scratch, replay):
     raise Infra("selftest not implemented yet")
